@@ -478,6 +478,7 @@ func (w *World) sweepCheck() {
 	w.rep.Max("max_sweeps_to_fixpoint", int64(sweeps))
 	if sweeps >= 1 {
 		w.rep.Inc("class_rebalancing_needed")
+		w.rep.Seen("nontrivial20", fmt.Sprint(w.max, w.min, w.trace))
 	}
 	if !ok && w.on("C20") {
 		w.fail("C20/no-fixpoint", "sweeps>bound", fmt.Sprintf("still moving players after %d sweeps (started with %d tables)", bound+1, T0))
@@ -535,4 +536,47 @@ func minInt(a, b int) int {
 		return a
 	}
 	return b
+}
+
+// replayWorld re-executes a recorded history (which members are eliminated or released is chosen
+// afresh: the regulator only sees counts and ids it handed out itself)
+func replayWorld(w *World, history string) {
+	defer func() {
+		if e := recover(); e != nil {
+			w.fail(w.prop+"/panic", "regulator", fmt.Sprintf("the regulator panicked: %v", e))
+		}
+	}()
+	for _, f := range strings.Fields(history) {
+		if w.failed {
+			return
+		}
+		switch {
+		case strings.HasPrefix(f, "add"):
+			var n int
+			fmt.Sscan(f[3:], &n)
+			w.add(n)
+		case strings.HasPrefix(f, "status"):
+			var k int
+			fmt.Sscan(f[6:], &k)
+			w.setStatus(k)
+		case f == "sync(nope)":
+			w.unknownTable()
+		case strings.HasPrefix(f, "sync("):
+			var id string
+			var out int
+			body := strings.TrimSuffix(strings.TrimPrefix(f, "sync("), ")")
+			parts := strings.Split(body, ",")
+			if len(parts) == 2 {
+				id = parts[0]
+				fmt.Sscan(parts[1], &out)
+				if _, ok := w.tables[id]; ok {
+					w.sync(id, out)
+					w.check("sync")
+				}
+			}
+		}
+	}
+	if !w.failed && w.on("C20") && len(w.tables) > 0 && w.status >= 1 {
+		w.sweepCheck()
+	}
 }
